@@ -219,8 +219,11 @@ static Scenario make_c09(std::map<std::string, long> const&)
   constexpr bool dropping = Opt::queue_type == QueueType::BoundedDropping || Opt::queue_type == QueueType::UnboundedDropping;
   Scenario sc;
   auto lg = std::make_shared<L*>(nullptr);
-  sc.setup = [lg](World&, Scenario const&)
+  sc.setup = [lg](World& w, Scenario const& s)
   {
+    w.backend_options.transit_event_buffer_initial_capacity = static_cast<size_t>(s.c("tbuf", 256));
+    w.backend_options.transit_events_soft_limit = static_cast<size_t>(s.c("soft", 4096));
+    w.backend_options.transit_events_hard_limit = static_cast<size_t>(s.c("hard", 32768));
     auto s1 = std::make_shared<RecSink>(1);
     *lg = F::create_or_get_logger("A", {s1}, PatternFormatterOptions{"%(message)"}, ClockSourceType::System);
   };
